@@ -120,11 +120,10 @@ static void do_op(Exec &x, const json &op) {
     if (o == "adv") { advance(x, op["dt"][0].get<int64_t>() * 86400000ll + op["dt"][1].get<int64_t>(), op["skew"].get<int64_t>()); return; }
     if (o == "advt") {
         if (!x.al->isEnabled()) return;
-        uint64_t sec = g_wall_us / 1000000ull, us = g_wall_us % 1000000ull;
+        uint64_t us = g_wall_us % 1000000ull;
         uint32_t remain = x.al->remainSeconds();                 // target - now in 32-bit arithmetic, as the API gives it
         if (remain > 0x7fffffffu) return;                        // target already behind the wall clock
         advance(x, (int64_t)remain * 1000 - (int64_t)(us / 1000) + op["ms"].get<int64_t>(), op["skew"].get<int64_t>());
-        (void)sec;
         return;
     }
     if (o == "adj") {
